@@ -51,14 +51,16 @@ Draw2(n) == /\ nacts < MaxActs /\ ~InSplit /\ n \in DOMAIN twin
                /\ draws' = Append(draws, <<epoch, id, 2>>)
                /\ Log([op |-> "draw2", name |-> n, result |-> "ok", ids |-> <<id>>])
             /\ nacts' = nacts + 1 /\ UNCHANGED <<backups, epoch, streams>>
-\* split_rngs(rngs, splits = 2, only = S)
-Split(S_) == /\ nacts < MaxActs /\ ~InSplit /\ S_ # {} /\ S_ \subseteq DOMAIN streams
+\* split_rngs(rngs, splits = 2, only = S)   or, sq = TRUE, split_rngs(rngs, splits = 1, squeeze = TRUE, only = S): the stream is
+\* re-keyed with the one split key and stays scalar, so ordinary draws continue to work inside the split region
+Split(S_, sq) == /\ nacts < MaxActs /\ ~InSplit /\ S_ # {} /\ S_ \subseteq DOMAIN streams
              /\ LET k(n) == Fold(streams[n].seed, streams[n].count) IN
                 /\ backups' = [i \in 1..Cardinality(S_) |->
                                 LET n == CHOOSE x \in S_ : Cardinality({y \in S_ : SeedOf(y) < SeedOf(x)}) = i - 1 IN
                                 [name |-> n, seed |-> streams[n].seed, count |-> streams[n].count + 1]]
-                /\ streams' = [n \in DOMAIN streams |-> IF n \in S_ THEN [seed |-> k(n), count |-> 0, split |-> 2] ELSE streams[n]]
-                /\ Log([op |-> "split", only |-> S_, ids |-> <<>>])
+                /\ streams' = [n \in DOMAIN streams |-> IF n \in S_ THEN [seed |-> IF sq THEN SplitK(k(n), 0) ELSE k(n), count |-> 0,
+                                                                           split |-> IF sq THEN 1 ELSE 2] ELSE streams[n]]
+                /\ Log([op |-> "split", only |-> S_, sq |-> sq, ids |-> <<>>])
              /\ nacts' = nacts + 1 /\ UNCHANGED <<draws, epoch, twin>>
 \* inside the mapped function every index draws from a split stream
 SplitDraw(n) == /\ nacts < MaxActs /\ InSplit /\ n \in DOMAIN streams /\ streams[n].split = 2
@@ -67,6 +69,13 @@ SplitDraw(n) == /\ nacts < MaxActs /\ InSplit /\ n \in DOMAIN streams /\ streams
                    /\ Log([op |-> "splitdraw", name |-> n, ids |-> ids])
                 /\ streams' = [streams EXCEPT ![n].count = @ + 1]
                 /\ nacts' = nacts + 1 /\ UNCHANGED <<backups, epoch, twin>>
+\* an ordinary draw from a squeezed split stream
+SqDraw(n) == /\ nacts < MaxActs /\ InSplit /\ n \in DOMAIN streams /\ streams[n].split = 1
+             /\ LET id == Fold(streams[n].seed, streams[n].count) IN
+                /\ draws' = Append(draws, <<epoch, id, 1>>)
+                /\ Log([op |-> "sqdraw", name |-> n, ids |-> <<id>>])
+             /\ streams' = [streams EXCEPT ![n].count = @ + 1]
+             /\ nacts' = nacts + 1 /\ UNCHANGED <<backups, epoch, twin>>
 Restore == /\ nacts < MaxActs /\ InSplit
            /\ streams' = [n \in DOMAIN streams |->
                             IF \E i \in 1..Len(backups) : backups[i].name = n
@@ -81,8 +90,8 @@ Reseed(n, s, askey) == /\ nacts < MaxActs /\ ~InSplit /\ n \in DOMAIN streams
                        /\ Log([op |-> "reseed", name |-> n, seed |-> s, askey |-> askey, ids |-> <<>>])
                        /\ epoch' = epoch + 1
                        /\ nacts' = nacts + 1 /\ UNCHANGED <<backups, draws>>
-Next == \/ \E n \in Names : Draw(n) \/ SplitDraw(n) \/ Draw2(n)
-        \/ \E S_ \in SUBSET Names : Split(S_)
+Next == \/ \E n \in Names : Draw(n) \/ SplitDraw(n) \/ Draw2(n) \/ SqDraw(n)
+        \/ \E S_ \in SUBSET Names, sq \in BOOLEAN : Split(S_, sq)
         \/ Restore
         \/ \E n \in Names, d \in {0, 10}, k \in BOOLEAN : Reseed(n, SeedOf(n) + d, k)    \* seeds are per-stream: no two streams share one
 Spec == Init /\ [][Next]_vars
